@@ -9,7 +9,8 @@ import (
 // generated cases that witness each open finding.  A case is a function of its
 // PRNG stream only, so re-deriving the stream reproduces the case under any
 // VERIF_SEED and tier; every run therefore re-executes one witness per known
-// signature before the seeded lists.
+// signature before the seeded lists.  The positions are referenced by
+// known_findings.jsonl (witness "directed#k"): append only, never reorder.
 var replay = []struct {
 	Seed uint64
 	Mon  string
@@ -17,10 +18,10 @@ var replay = []struct {
 	Sig  string // what the case is expected to show (documentation only)
 }{
 	{1, "closed.vector", 1168, "C16|closed.vector|vectorNormal|d>=2,floor-active|not-maximal:Sigma"},
-	{1, "closed.wrapper", 800, "C16|closed.wrapper|ScalarIid(n=-1)|rows=1,dim>1,weighted|panic"},
-	{1, "closed.wrapper", 48, "C16|closed.wrapper|ScalarIid(n=-1)|rows>1,dim>1,weighted|panic"},
-	{1, "closed.wrapper", 288, "C16|closed.wrapper|ScalarIid|rows=1,dim>1,weighted|panic"},
-	{1, "closed.wrapper", 16, "C16|closed.wrapper|ScalarIid|rows>1|error"},
+	{1, "closed.wrapper", 800, "repaired in /repo (8ce871f / 291e3fe), kept as regression case: C16|closed.wrapper|ScalarIid(n=-1)|rows=1,dim>1,weighted|panic"},
+	{1, "closed.wrapper", 48, "repaired in /repo (8ce871f / 291e3fe), kept as regression case: C16|closed.wrapper|ScalarIid(n=-1)|rows>1,dim>1,weighted|panic"},
+	{1, "closed.wrapper", 288, "repaired in /repo (8ce871f / 291e3fe), kept as regression case: C16|closed.wrapper|ScalarIid|rows=1,dim>1,weighted|panic"},
+	{1, "closed.wrapper", 16, "repaired in /repo (8ce871f / 291e3fe), kept as regression case: C16|closed.wrapper|ScalarIid|rows>1|error"},
 	{1, "closed.wrapper", 2256, "C16|closed|scalarNormal-moments|mean/sd<1e6|wrong-estimate"},
 	{1, "closed.scalar", 5808, "C16|closed|scalarNormal-moments|mean/sd>=1e6|wrong-estimate"},
 	{1, "closed.scalar", 2704, "C16|closed|scalarNormal-moments|sd=0|wrong-estimate"},
@@ -28,8 +29,8 @@ var replay = []struct {
 	{1, "closed.vector", 1024, "C16|closed|vectorNormal-moments|mean/sd<1e6|wrong-estimate"},
 	{1, "closed.vector", 15216, "C16|closed|vectorNormal-moments|mean/sd>=1e6|wrong-estimate"},
 	{7, "closed.vector", 5663, "C16|closed|vectorNormal-moments|sd=0|wrong-estimate"},
-	{1, "em.hmm.options", 17, "C16|em.hmm.options|matrixHmm,OptimizeTransitions=false|panic"},
-	{1, "em.hmm.options", 0, "C16|em.hmm.options|vectorHmm,OptimizeTransitions=false|panic"},
+	{1, "em.hmm.options", 17, "repaired in /repo (8ce871f / 291e3fe), kept as regression case: C16|em.hmm.options|matrixHmm,OptimizeTransitions=false|panic"},
+	{1, "em.hmm.options", 0, "repaired in /repo (8ce871f / 291e3fe), kept as regression case: C16|em.hmm.options|vectorHmm,OptimizeTransitions=false|panic"},
 	{1, "em.hmm", 137, "C16|em|categorical|component-parameters-nan|nan-likelihood"},
 	{1, "em.hmm", 174, "C16|em|exponential|component-parameters-nan|nan-likelihood"},
 	{1, "em.mixture.scalar", 48, "C16|em|geometric|component-density-nan|nan-likelihood"},
@@ -45,18 +46,20 @@ var replay = []struct {
 	{2, "em.mixture.vector", 173, "C16|em|vectorNormal|d>=2,floor-active|decrease"},
 	{1, "numeric", 96, "C16|numeric|bfgs|moved|not-stationary"},
 	{1, "numeric", 0, "C16|numeric|bfgs|returned-initial-point|not-stationary"},
+	{1, "em.mixture.discrete", 64, "C16|em|normal-moments|component-mean/sd>=1e2|differs-from-raw-data"},
 }
 
 var monitors = map[string]func(cs *fw.Case){
-	"closed.scalar":     func(cs *fw.Case) { runClosedScalar(cs, cs.R) },
-	"closed.wrapper":    func(cs *fw.Case) { runClosedWrapper(cs, cs.R) },
-	"closed.vector":     func(cs *fw.Case) { runClosedMvn(cs, cs.R) },
-	"numeric":           func(cs *fw.Case) { runNumeric(cs, cs.R) },
-	"em.mixture.scalar": func(cs *fw.Case) { runEmScalarMixture(cs, cs.R) },
-	"em.mixture.vector": func(cs *fw.Case) { runEmVectorMixture(cs, cs.R) },
-	"em.hmm":            func(cs *fw.Case) { runEmHmm(cs, cs.R, nil) },
-	"em.hmm.options":    func(cs *fw.Case) { f := false; runEmHmm(cs, cs.R, &f) },
-	"em.nested":         func(cs *fw.Case) { runEmNested(cs, cs.R) },
+	"closed.scalar":       func(cs *fw.Case) { runClosedScalar(cs, cs.R) },
+	"closed.wrapper":      func(cs *fw.Case) { runClosedWrapper(cs, cs.R) },
+	"closed.vector":       func(cs *fw.Case) { runClosedMvn(cs, cs.R) },
+	"numeric":             func(cs *fw.Case) { runNumeric(cs, cs.R) },
+	"em.mixture.scalar":   func(cs *fw.Case) { runEmScalarMixture(cs, cs.R) },
+	"em.mixture.discrete": func(cs *fw.Case) { runEmDiscreteMixture(cs, cs.R) },
+	"em.mixture.vector":   func(cs *fw.Case) { runEmVectorMixture(cs, cs.R) },
+	"em.hmm":              func(cs *fw.Case) { runEmHmm(cs, cs.R, nil) },
+	"em.hmm.options":      func(cs *fw.Case) { f := false; runEmHmm(cs, cs.R, &f) },
+	"em.nested":           func(cs *fw.Case) { runEmNested(cs, cs.R) },
 }
 
 func runReplay(cs *fw.Case) {
